@@ -4,7 +4,7 @@ import (
 	"github.com/markusressel/fan2go/internal/zzv"
 )
 
-//zzv:bound A4 = real validateConfig on an otherwise sound configuration that declares 0..2 command sensors (each one referenced by a linear curve, by a pid curve, or by no curve at all) and 0..1 command fans (with or without a curve of its own), configuration file with any owner uid and group gid (32 bit each) and any of the 512 permission modes: whenever at least one command sensor or command fan is declared and the file is not root-controlled the configuration is rejected; a root-controlled file never causes a rejection
+//zzv:bound A4 = real validateConfig on an otherwise sound configuration that declares 0..2 command sensors (in front of or behind a plain file sensor; each one referenced by a linear curve, by a pid curve, or by no curve at all) and 0..1 command fans (with or without a curve of its own), configuration file with any owner uid and group gid (32 bit each) and any of the 512 permission modes: whenever at least one command sensor or command fan is declared and the file is not root-controlled the configuration is rejected; a root-controlled file never causes a rejection
 //zzv:outside the YAML loader; where the daemon runs the declared commands (initializeSensors / initializeFans create every declared entry, referenced or not)
 //zzv:stub os.Stat / filepath.EvalSymlinks return the metadata chosen by the harness
 
@@ -37,6 +37,11 @@ func ZZ_C18_A4_ConfigFileRule() {
 		case 2:
 			cfg.Curves = append(cfg.Curves, CurveConfig{ID: "p" + id, PID: &PidCurveConfig{Sensor: id, SetPoint: 60, P: -0.05, I: -0.005, D: -0.005}})
 		}
+	}
+	// position of the command sensors in the list: the plain sensor first (command sensors last) or
+	// moved behind them (a command sensor first or in the middle, a plain one last)
+	if zzv.Choice("plainSensorLast", 2) == 1 {
+		cfg.Sensors = append(cfg.Sensors[1:], cfg.Sensors[0])
 	}
 	switch zzv.Choice("cmdFan", 3) { // 0 none, 1 on the shared curve, 2 declared first
 	case 1:
